@@ -3,6 +3,7 @@ import Swat4.Lemmas.GS1Choice
 import Swat4.Lemmas.GS1Collect
 import Swat4.Lemmas.GS1Parse
 import Swat4.Lemmas.GS1Expand
+import Swat4.Lemmas.GS1Decode
 import Swat4.Spec.GS1Spec
 /-!
 # C08 — Status responses decode faithfully in every dialect, split and order
@@ -309,6 +310,77 @@ theorem expand_concat (d : Dialect) (s : Status) (wf : WfStatus s) (hn : s.playe
     expandPayload (body (flat s ++ (framingFields d).flatMap fun kv => [kv.1, kv.2])) d.ver = .ok (toResponse d s) :=
   expandPayload_flat s wf hn (framingFields d) (framingFields_ok d) d.ver
 
+/-! ## the whole path: encode, deliver in any order with duplicates, query -/
+
+/-- **C08 (inspect ∘ encode).** In every fragmenting dialect (GS1 mod, AdminMod with `queryid` on the
+last / on every / on no fragment), fragment `i` (zero-based) of `n` of a well-formed status, cut
+anywhere between two fields (also between a name and its value), is recognised with number `i+1`,
+as final iff it is the last one, with the dialect's tag, and carrying exactly its part of the
+payload (`fragData`: the chunk's fields, plus the framing fields the dialect leaves in the last one). -/
+theorem inspect_encode (d : Dialect) (hd : d.fragmenting = true) (s : Status) (wf : WfStatus s) (cuts : List Nat)
+    (ch : List Bytes) (hch : ch ∈ chunks (flat s) cuts) (n i : Nat) (hi : i + 1 < 9223372036854775808) :
+    inspectFragment (fragment d n i ch) = .ok ⟨decide (i + 1 = n), ((i + 1 : Nat) : Int), d.ver, fragData d n i ch⟩ :=
+  inspect_fragment d hd n i ch (ChunkOK_of_mem_chunks s wf cuts ch hch) hi
+
+/-- "every datagram of the encoding has arrived" -/
+def Covers (E dl : List Bytes) : Prop := ∀ x ∈ E, x ∈ dl
+
+/-- **C08 (reassembly of any delivery).** For a well-formed status encoded in any dialect and cut
+anywhere, and any delivery of its datagrams — any order, any duplication — `collectPayload`
+completes exactly when every datagram has arrived (never before the final fragment and all
+lower-numbered ones are there), and then hands over the rendered field sequence with the
+dialect's tag. -/
+theorem C08_collect (d : Dialect) (s : Status) (wf : WfStatus s) (cuts : List Nat)
+    (hc : cuts.length + 1 < 9223372036854775808) (dl : List Bytes) (hsub : ∀ x ∈ dl, x ∈ encodeStatus d s cuts) :
+    (Covers (encodeStatus d s cuts) dl → ∃ cap, collectPayload dl =
+        .ok ⟨body (flat s ++ (framingFields d).flatMap fun kv => [kv.1, kv.2]), cap, d.ver⟩) ∧
+    (¬ Covers (encodeStatus d s cuts) dl → collectPayload dl = .err .incomplete) := by
+  have := collect_of_numbered (encode_insp d s wf cuts hc) (expected_numbered d s cuts) dl hsub
+  rw [expected_data] at this
+  exact this
+
+/-- **C08.** For every well-formed status, in the vanilla, AdminMod or GS1-mod dialect (and their
+variants), cut into fragments at any field boundaries, delivered in any order with duplicates:
+the query yields exactly `toResponse` — the encoded server fields, the players grouped by index in
+ascending order with their keys, the objectives in order, latin-1 text as UTF-8, the dialect tag —
+as soon as, and not before, every fragment has arrived; a delivery that lacks a fragment ends in
+the timeout.  (Datagrams are at most 2048 bytes, the read buffer; fragment and player counts are
+below 2^63.) -/
+theorem C08_decode (d : Dialect) (s : Status) (wf : WfStatus s) (cuts : List Nat)
+    (hc : cuts.length + 1 < 9223372036854775808) (hn : s.players.length ≤ 9223372036854775808)
+    (hsz : ∀ x ∈ encodeStatus d s cuts, x.length ≤ bufferSize)
+    (dl : List Bytes) (hsub : ∀ x ∈ dl, x ∈ encodeStatus d s cuts) :
+    (Covers (encodeStatus d s cuts) dl → runQuery dl = .response (toResponse d s)) ∧
+    (¬ Covers (encodeStatus d s cuts) dl → runQuery dl = .timeout) := by
+  have hexp : expandPayload ((expected d s cuts).map (·.data)).flatten d.ver = .ok (toResponse d s) := by
+    rw [expected_data]; exact expand_concat d s wf hn
+  have hne := encode_ne_nil d s wf cuts hc
+  have hnc : ¬ (∀ x ∈ encodeStatus d s cuts, x ∈ ([] : List Bytes)) := by
+    intro h
+    cases he : encodeStatus d s cuts with
+    | nil => exact hne he
+    | cons x t => have := h x (by rw [he]; simp); cases this
+  have := runQuery_of_numbered (encode_insp d s wf cuts hc) (expected_numbered d s cuts) (toResponse d s) hexp hsz
+    [] dl (by simpa using hsub) hnc
+  simpa [runQuery, Covers] using this
+
+/-- **C08 (no early completion), stated on one step of `getResponse`:** while a fragment is still
+missing after the new datagram, the query keeps reading. -/
+theorem C08_keeps_reading (d : Dialect) (s : Status) (wf : WfStatus s) (cuts : List Nat)
+    (hc : cuts.length + 1 < 9223372036854775808)
+    (hsz : ∀ x ∈ encodeStatus d s cuts, x.length ≤ bufferSize)
+    (frs : List Bytes) (x : Bytes) (hsub : ∀ y ∈ frs ++ [x], y ∈ encodeStatus d s cuts)
+    (hmiss : ¬ Covers (encodeStatus d s cuts) (frs ++ [x])) : feed frs x = .incomplete := by
+  have hx : x ∈ encodeStatus d s cuts := hsub x (by simp)
+  have htake : x.take bufferSize = x := List.take_of_length_le (hsz x hx)
+  have hxne : ¬ x.length = 0 := by
+    intro h0
+    obtain ⟨F, _, hi⟩ := insp_of_mem (encode_insp d s wf cuts hc) hx
+    rw [List.length_eq_zero_iff.mp h0, insp_nil] at hi; cases hi
+  have := (C08_collect d s wf cuts hc (frs ++ [x]) hsub).2 hmiss
+  unfold feed
+  simp only [htake, hxne, if_false, this]
+
 end Swat4.C08
 
 /-- non-vacuity of `best_response`: two accepted answers, AdminMod then vanilla, game port 10480 -/
@@ -322,3 +394,10 @@ example : Swat4.C08.ConsistentDups
      [0x5c, 0x63, 0x5c, 0x64, 0x5c, 0x71, 0x75, 0x65, 0x72, 0x79, 0x69, 0x64, 0x5c, 0x32, 0x5c, 0x66, 0x69, 0x6e, 0x61, 0x6c, 0x5c]] := by
   unfold Swat4.C08.ConsistentDups Swat4.GS1.ConsistentFrags
   decide
+
+/-- non-vacuity of `C08_decode`: a well-formed status with a latin-1 host name, one player and one objective -/
+example : Swat4.GS1Spec.WfStatus
+    ⟨[([0x68, 0x6f, 0x73, 0x74, 0x6e, 0x61, 0x6d, 0x65], [0x53, 0xe9, 0x72, 0x76]), ([0x68, 0x6f, 0x73, 0x74, 0x70, 0x6f, 0x72, 0x74], [0x31, 0x30, 0x34, 0x38, 0x30])],
+     [[([0x70, 0x6c, 0x61, 0x79, 0x65, 0x72], [0x4a, 0x6f]), ([0x73, 0x63, 0x6f, 0x72, 0x65], [0x33])]],
+     [([0x41, 0x5f, 0x42], [0x31])]⟩ :=
+  ⟨by decide, by decide, by decide, by decide, by decide, by decide, by decide⟩
